@@ -51,6 +51,10 @@ def q_req(r):
         return {'k': 'rpc', 'n': cps(r[1])}
     if k == 'http':
         return {'k': 'http', 'verb': cps(r[1]), 'path': cps(r[2])}
+    if k in ('rpcb', 'keyb'):                       # the name as msgpack `bin`
+        return {'k': k, 'b': list(r[1])}
+    if k in ('rawkey', 'rawtag'):                   # bytes spliced into a text body: the parser is a third party (T3 only)
+        return {'k': 'null', 'n': []}
     raise ValueError(r)
 
 
@@ -205,6 +209,25 @@ class Built:
         elif r[0] == 'rpc':
             import msgpack
             body, ctype = msgpack.packb([0, 1, r[1], []]), 'application/x-msgpack'
+        elif r[0] == 'rpcb':
+            import msgpack
+            body, ctype = msgpack.packb([0, 1, bytes(r[1]), []], use_bin_type=True), 'application/x-msgpack'
+        elif r[0] == 'keyb':
+            import msgpack
+            body, ctype = msgpack.packb({bytes(r[1]): {}}, use_bin_type=True), 'application/x-msgpack'
+        elif r[0] == 'rawkey':
+            if p == 'json':
+                body, ctype = b'{"' + bytes(r[1]) + b'": {}}', 'application/json'
+            else:
+                body, ctype = b'"' + bytes(r[1]) + b'": {}\n', 'text/yaml'
+        elif r[0] == 'rawtag':
+            el = b'<' + bytes(r[2]) + (b'' if r[1] is None else b' xmlns="' + r[1].encode('utf8') + b'"') + b'/>'
+            if p == 'soap11':
+                el = b'<e:Envelope xmlns:e="http://schemas.xmlsoap.org/soap/envelope/"><e:Body>' + el + b'</e:Body></e:Envelope>'
+            elif p == 'soap12':
+                el = b'<e:Envelope xmlns:e="http://www.w3.org/2003/05/soap-envelope"><e:Body>' + el + b'</e:Body></e:Envelope>'
+                ctype = 'application/soap+xml; charset=utf-8'
+            body = el
         elif r[0] == 'tag':
             ns, loc = r[1], r[2]
             el = '<%s%s/>' % (loc, '' if ns is None else ' xmlns="%s"' % ns)
@@ -226,6 +249,8 @@ def canon_resp(calls, faults, exc):
         return {'ran': calls}
     if not calls and faults == ['Client.ResourceNotFound']:
         return 'Client.ResourceNotFound'
+    if not calls and len(faults) == 1 and faults[0].startswith('Client.'):
+        return 'Client.fault'          # some other client fault (e.g. a name that cannot be decoded), nothing ran
     return {'other': {'calls': calls, 'faults': faults}}
 
 
@@ -281,13 +306,23 @@ def measure_facts():
     b3 = Built(W_PLAIN, [0], 'http')
     r3 = [b3.request(('http', 'GET', p))[0] for p in ('/a/foo', '/a/{tns}foo')]
     f['docPrefixesTns'] = all(x == [ok, nf] for x in (r, r2, r3))
+    bn = []
+    for proto, kind in (('msgpackrpc', 'rpcb'), ('msgpack', 'keyb')):
+        bb = Built(W_PLAIN, [0], proto)
+        bn.append([bb.request((kind, tuple(x)))[0] for x in (b'foo', b'foo\xff', b'\xfefoo', b'\xc1\xa6oo', b'fo')])
+    if all(x[0] == ok and all(y in ('Client.fault', nf) for y in x[1:4]) and x[4] == nf for x in bn):
+        f['binNames'] = 'strictUtf8'
+    elif any(isinstance(y, dict) and y.get('ran') for x in bn for y in x[1:4]):
+        f['binNames'] = 'lossy'
+    else:
+        f['binNames'] = 'other'
     b = Built(W_PATDUP, [0], 'http')
     f['patternDup'] = 'reject' if b.error == ('transport', 'ValueError') else ('arbitrary' if b.error is None else 'other')
     return f
 
 
 GOOD = {'auxFirst': 'insertFront', 'ifaceDup': 'reject', 'qualify': 'unlessBrace', 'docPrefixesTns': True,
-        'emptyIsNotFound': True, 'patternDup': 'reject'}
+        'emptyIsNotFound': True, 'patternDup': 'reject', 'binNames': 'strictUtf8'}
 FACT_WITNESS = {
     'auxFirst': ('an auxiliary service listed before the primary service of the same method name',
                  {'spec': W_AUXFIRST, 'order': [0, 1], 'other_order': [1, 0]}),
@@ -297,6 +332,8 @@ FACT_WITNESS = {
                                                                   'request': ['null', '{tns}foo']}),
     'docPrefixesTns': ('JSON key {tns}foo', {'spec': W_PLAIN, 'order': [0], 'proto': 'json', 'request': ['key', '{tns}foo']}),
     'emptyIsNotFound': ('unknown name fo', {'spec': W_PLAIN, 'order': [0], 'proto': 'null', 'request': ['null', 'fo']}),
+    'binNames': ("a method name sent as msgpack bin that is not valid UTF-8 (b'foo\\xff', b'\\xfefoo', overlong b'\\xc1\\xa6oo')",
+                 {'spec': W_PLAIN, 'order': [0], 'proto': 'msgpackrpc', 'request': ['rpcb', [0x66, 0x6F, 0x6F, 0xFF]]}),
     'patternDup': ('one HttpPattern (GET /same) bound to two methods is accepted; which one answers depends on the '
                    'iteration order of a set of id-hashed objects',
                    {'spec': W_PATDUP, 'order': [0], 'proto': 'http', 'request': ['http', 'GET', '/same']}),
@@ -323,10 +360,11 @@ def facts11 : Facts11 where
   docPrefixesTns := %s
   emptyIsNotFound := %s
   patternDup := .%s
+  binNames := .%s
 
 end SpyneModel.Generated
 ''' % (lean_text(f['requestSuffix']), lean_text(f['responseSuffix']), f['auxFirst'], f['ifaceDup'], f['qualify'],
-       b(f['docPrefixesTns']), b(f['emptyIsNotFound']), f['patternDup'])
+       b(f['docPrefixesTns']), b(f['emptyIsNotFound']), f['patternDup'], f['binNames'])
 
 
 # ------------------------------------------------------------------------------------ generators
@@ -346,6 +384,33 @@ def near_misses(w):
     res = [w.swapcase(), w.capitalize(), w.upper(), w.lower(), w + 'x', 'x' + w, w + '_', '_' + w, w[:-1], w[1:],
            w + w, w + '1', w + '.', w + ' ', ' ' + w, confuse(w), w + 'Response', w + '}', w + '.' + w]
     return [x for x in dict.fromkeys(res) if x and x != w]
+
+
+def byte_near_misses(w):
+    """byte strings that are NOT the UTF-8 encoding of w but decode to w under a lossy or lenient decoder, or are
+    one byte away from it: invalid bytes inserted, overlong forms, NUL, surrogates, truncated sequences, BOM"""
+    e = w.encode('utf8')
+    c = e[0]
+    res = [e + b'\xff', b'\xfe' + e, e[:len(e) // 2] + b'\xff' + e[len(e) // 2:], e + b'\x80', b'\xbf' + e,
+           e + b'\x00', b'\x00' + e, e + b'\xc3', e + b'\xe2\x82', e + b'\xf0\x9f\x98',
+           e + b'\xed\xa0\x80', e + b'\xed\xb0\x80', e + b'\xf4\x90\x80\x80', e + b'\xf8\x88\x80\x80\x80',
+           b'\xef\xbb\xbf' + e, e + b'\xc2\xa0', e + b'\xe2\x80\x8b', e.upper() if e.upper() != e else e.lower()]
+    if c < 0x80:    # overlong 2-, 3- and 4-byte forms of the first character
+        res += [bytes([0xC0 | (c >> 6), 0x80 | (c & 0x3F)]) + e[1:],
+                bytes([0xE0, 0x80 | (c >> 6), 0x80 | (c & 0x3F)]) + e[1:],
+                bytes([0xF0, 0x80, 0x80 | (c >> 6), 0x80 | (c & 0x3F)]) + e[1:]]
+    try:
+        res.append(w.encode('latin-1') if w.encode('latin-1') != e else w.encode('utf-16-le'))
+    except UnicodeEncodeError:
+        res.append(w.encode('utf-16-le'))
+    return [x for x in dict.fromkeys(res) if x != e]
+
+
+def strict_text(bs):
+    try:
+        return bytes(bs).decode('utf-8')
+    except UnicodeDecodeError:
+        return None
 
 
 def xml_safe(s):
@@ -556,10 +621,21 @@ def requests_for(ctx, spec, names, proto, budget):
         cand = reg[:budget // 2] + rng.sample([c for c in cand if c not in reg[:budget // 2]], budget - len(reg[:budget // 2]))
     n0 = reg[0] if reg else 'foo'
     reqs = []
+    # byte-level candidates: exact encodings of some registered names and near misses of them
+    bcand = []
+    for n in reg[:3]:
+        bm = byte_near_misses(n)
+        bcand += [n.encode('utf8')] + bm[:6] + rng.sample(bm, min(5, len(bm)))
+    bcand = [tuple(b) for b in dict.fromkeys(bcand)]
     if proto in PROTOS_KEY:
         reqs = [('key', n) for n in cand] + [('key', '{%s}%s' % (tns, n0)), ('key', '{%s}%s' % (OTHER_NS, n0)), ('key', '')]
+        if proto == 'msgpack':
+            reqs += [('keyb', b) for b in bcand]
+        else:
+            reqs += [('rawkey', b) for b in bcand if not any(x in b for x in b'"\\\n\r')]
     elif proto == 'msgpackrpc':
         reqs = [('rpc', n) for n in cand] + [('rpc', '{%s}%s' % (tns, n0)), ('rpc', '{%s}%s' % (OTHER_NS, n0))]
+        reqs += [('rpcb', b) for b in bcand]
     elif proto == 'null':
         reqs = [('null', n) for n in cand] + [('null', '{%s}%s' % (ns, n)) for n in cand[:4]
                                               for ns in (tns, OTHER_NS, tns.swapcase(), tns + 'x', tns[:-1])]
@@ -571,11 +647,19 @@ def requests_for(ctx, spec, names, proto, budget):
             for ns in (OTHER_NS, tns.swapcase(), tns + 'x', tns[:-1], tns + '/'):
                 if ns_safe(ns) and ns != tns:
                     reqs.append(('tag', ns, n))
+        if ns_safe(tns):
+            reqs += [('rawtag', tns, b) for b in bcand if not any(x in b for x in b'<>/ "\'=&')]
     elif proto == 'http':
         safe = [n for n in cand if path_safe(n)]
         reqs = [('http', 'GET', rng.choice(['/', '/a/', '/a/b/', '']) + n) for n in safe]
         reqs += [('http', 'GET', '/{%s}%s' % (OTHER_NS.replace('/', ''), n0)), ('http', 'GET', '/%s/' % n0),
                  ('http', 'GET', '/%s/x' % n0)]
+        # spyne must not percent-decode (or otherwise normalise) PATH_INFO on its own
+        if path_safe(n0):
+            reqs += [('http', 'GET', '/' + ''.join('%%%02X' % b for b in n0.encode('utf8'))),
+                     ('http', 'GET', '/%%%02X%s' % (ord(n0[0]), n0[1:])), ('http', 'GET', '/' + n0 + '%00'),
+                     ('http', 'GET', '/' + n0 + '%FF'), ('http', 'GET', '/' + n0 + '\x00'), ('http', 'GET', '/' + n0 + '\xff'),
+                     ('http', 'GET', '/' + n0 + ';x'), ('http', 'GET', '/' + n0 + '%2F')]
         reqs += pattern_requests(ctx, spec)
     return list(dict.fromkeys(reqs))
 
@@ -774,7 +858,7 @@ def run_spec(ctx, tag, spec, Q, directed):
                 ctx.hit('resp:' + (resp if isinstance(resp, str) else next(iter(resp))))
                 ctx.cov['traces_validated_against_impl'] += 1
                 oracle(ctx, spec, o, proto, r, resp, status, tab, amb)
-            skip = [i for i, r in enumerate(reqs) if amb and r[0] == 'http']
+            skip = [i for i, r in enumerate(reqs) if (amb and r[0] == 'http') or r[0] in ('rawkey', 'rawtag')]
             Q.append((q_app(spec, o, reqs), impl, 'serve', {'spec': spec, 'order': o, 'proto': proto, 'reqs': reqs, 'skip': skip}))
 
 
@@ -852,7 +936,34 @@ def pattern_expected(spec, names, r):
 def oracle(ctx, spec, order, proto, r, resp, status, tab, amb):
     """T3: the property on the real code for one request"""
     tns = spec['tns']
-    rep = {'spec': spec, 'order': order, 'proto': proto, 'request': list(r), 'got': resp, 'status': status}
+    rep = {'spec': spec, 'order': order, 'proto': proto, 'request': [list(x) if isinstance(x, tuple) else x for x in r],
+           'got': resp, 'status': status}
+    if r[0] in ('rpcb', 'keyb', 'rawkey', 'rawtag'):
+        # the name travels as bytes: only the exact UTF-8 encoding of a registered name may run anything
+        bs = r[1] if r[0] != 'rawtag' else r[2]
+        ctx.hit('t3:bytes:' + r[0])
+        text = strict_text(bs)
+        spyne_decodes = r[0] in ('rpcb', 'keyb')
+        if text is not None and text in tab and (spyne_decodes or xml_safe(text)):
+            r = ('key', text)          # judged like the text form below
+        elif text is not None and text in tab:
+            return                     # a registered name the third-party parser may or may not accept in this position
+        else:
+            if spyne_decodes:
+                # spyne itself turns the bytes into the name: undecodable -> a client fault, decodable -> not found
+                ok = resp == 'Client.ResourceNotFound' if text is not None else resp in ('Client.ResourceNotFound', 'Client.fault')
+            else:
+                # the body as a whole goes through lxml / json / PyYAML (and a charset decoder); how a body that
+                # cannot be decoded is answered is C10's question -- here only: no user function may run
+                ok = not (isinstance(resp, dict) and (resp.get('ran') or resp.get('calls') or (resp.get('other') or {}).get('calls')))
+            if not ok:
+                ctx.hit('t3-fail:bytes')
+                ran = resp.get('ran') if isinstance(resp, dict) else None
+                ctx.finding('byte-name:%s' % ('ran' if ran else 'no-client-fault'),
+                            '%s request whose method name is the byte string %r (%s) %s' % (
+                                proto, bytes(bs), 'not valid UTF-8' if text is None else 'UTF-8 of the unregistered %r' % text,
+                                'ran functions %r' % ran if ran else 'was answered with %r' % (resp,)), rep)
+            return
     name = expected_for(tab, tns, r)
     if r[0] == 'http':
         # an HttpPattern may name the method instead of the last path segment
@@ -912,6 +1023,23 @@ def address_cases(ctx, Q):
             Q.append(({'op': 'addr', 'addr': cps(addr), 'path': cps(path)}, impl, 'addr', {'addr': addr, 'path': path}))
             ctx.case({'op': 'addr', 'addr': addr, 'path': path})
             ctx.hit('addr:' + str(impl['ok']))
+    # strict UTF-8 decoding of names (T2 against CPython's codec, which spyne's msgpack protocols use)
+    samples = []
+    for w in WORDS + ['é', '€uro', 'naïve', '😀x', 'fоo', '\ud7ff', '\ue000', '\U0010ffff', '\x7f\x80']:
+        samples += [w.encode('utf8')] + byte_near_misses(w)
+    for lead in (0xC0, 0xC1, 0xC2, 0xDF, 0xE0, 0xE1, 0xEC, 0xED, 0xEE, 0xEF, 0xF0, 0xF1, 0xF3, 0xF4, 0xF5, 0xF7, 0xFF, 0x80, 0xBF):
+        for tail in (b'', b'\x80', b'\xbf', b'\x7f', b'\xc0', b'\x80\x80', b'\xa0\x80', b'\x9f\xbf', b'\x90\x80\x80',
+                     b'\x8f\xbf\xbf', b'\x80\x80\x80', b'\xbf\xbf\xbf', b'\x90\x80', b'\x80\x80\x80\x80'):
+            samples.append(bytes([lead]) + tail)
+            samples.append(b'a' + bytes([lead]) + tail + b'z')
+    for _ in range(2000 if ctx.thorough else 300):
+        samples.append(bytes(rng.choice([rng.randrange(256), rng.randrange(0x80, 0x100), rng.randrange(0xC0, 0xF8)])
+                             for _ in range(rng.randrange(1, 6))))
+    for bs in dict.fromkeys(samples):
+        t = strict_text(bs)
+        Q.append(({'op': 'utf8', 'b': list(bs)}, {'ok': None if t is None else cps(t)}, 'utf8', {'bytes': list(bs)}))
+        ctx.case({'op': 'utf8', 'b': list(bs)})
+        ctx.hit('utf8:' + ('ok' if t is not None else 'reject'))
     for alts in [a for a in VERBS if a] + [['A', 'AB', 'ABC'], ['ABC', 'AB', 'A'], ['GET']]:
         rx = re.compile('|'.join(alts))
         for verb in ['GET', 'POST', 'GETX', 'GE', '', 'DELETE', 'PUT', 'get', 'A', 'AB', 'ABC', 'ABCD', 'XGET']:
@@ -922,9 +1050,9 @@ def address_cases(ctx, Q):
 
 
 def compare(ctx, op, q, impl, mod, meta):
-    if op in ('addr', 'verb'):
+    if op in ('addr', 'verb', 'utf8'):
         if impl != mod:
-            ctx.disagree('http.' + op, meta, impl, mod)
+            ctx.disagree(('http.' if op != 'utf8' else 'naming.') + op, meta, impl, mod)
         return
     if op == 'build':
         if 'routes' in impl:
@@ -942,7 +1070,7 @@ def compare(ctx, op, q, impl, mod, meta):
         return
     for i, (r, a, b) in enumerate(zip(meta['reqs'], impl, mod['resp'])):
         if i in meta['skip']:
-            ctx.hit('t2-skipped:ambiguous-patterns')
+            ctx.hit('t2-skipped:' + ('third-party-parser' if r[0].startswith('raw') else 'ambiguous-patterns'))
             continue
         if a != b:
             ctx.disagree('dispatch:' + meta['proto'], {'spec': meta['spec'], 'order': meta['order'], 'proto': meta['proto'], 'request': list(r)}, a, b)
